@@ -200,6 +200,16 @@ func decodeReplies(w *dyn.World, cs CallSpec, res drive.Result) ([]protoreflect.
 		}
 		for _, f := range frames {
 			if f.Flag&0x80 != 0 {
+				// the gRPC-web trailer frame is part of the response too: nothing but this call's own trailers
+				tr, err := drive.ParseWebTrailer(f.Payload)
+				if err != nil {
+					return nil, fmt.Errorf("trailer frame is not a header block: %v (%q)", err, trunc(f.Payload))
+				}
+				for k := range tr {
+					if k != "grpc-status" && k != "grpc-message" && k != "grpc-status-details-bin" {
+						return nil, fmt.Errorf("trailer frame carries %q, which this call never set (%q)", k, trunc(f.Payload))
+					}
+				}
 				continue
 			}
 			m := dynamicpb.NewMessage(md)
